@@ -81,6 +81,17 @@ def run_bounded(chk):
         rk = float(sp_.radius)
         checks += [("after_radius_change:volume", sp_.volume, Vk + Sk * rk + 4 * math.pi * Mk * rk**2 + 4 / 3 * math.pi * rk**3),
                    ("after_radius_change:surface_area", sp_.surface_area, Sk + 8 * math.pi * Mk * rk + 4 * math.pi * rk**2)]
+        # two rounded shapes built from one float64 array: resizing one must leave the other a Steiner body of the original core
+        arr = np.array(off, dtype=np.float64)
+        sa, sb = cox.shapes.ConvexSpheropolyhedron(arr, 0.2 * size), cox.shapes.ConvexSpheropolyhedron(arr, 0.4 * size)
+        _ = (sa.volume, sb.volume)
+        sa.volume = 3.0 * sa.volume
+        sa.polyhedron.centroid = np.asarray(sa.polyhedron.centroid) + 1.0
+        n_eval += 1
+        rb = 0.4 * size
+        checks += [("sibling_from_same_array:volume", sb.volume, V + S * rb + 4 * math.pi * Mc * rb**2 + 4 / 3 * math.pi * rb**3),
+                   ("sibling_from_same_array:surface_area", sb.surface_area, S + 8 * math.pi * Mc * rb + 4 * math.pi * rb**2),
+                   ("sibling_from_same_array:mean_curvature", sb.mean_curvature, Mc + rb)]
         for nm, got, want in checks:
             if not oracle.close(got, want, 1e-9):
                 fails.append((f"{name}:{nm}", {"points": off, "observed": float(got), "expected": float(want)}))
